@@ -680,10 +680,43 @@ func (g *gen) doRead() {
 		off = int(im.c.GetSize())
 	}
 	buf := make([]byte, n)
+	// sometimes every RW replica fails this read while a request that promotes the rebuilding replica
+	// (PUT mode RW) arrives during the read: ReadAt holds the controller lock across the read AND the
+	// handling of its errors, so the promotion takes effect afterwards and the read fails; were the
+	// lock dropped in between, the error handling would find an RW replica that was never asked
+	var intruder string
+	intruded, launched := false, false
+	done := make(chan struct{})
+	if off < int(im.c.GetSize()) && g.rng.Float64() < 0.25 {
+		for _, r := range g.replicas() {
+			if r.Mode == types.WO {
+				intruder = r.Address
+			}
+		}
+		if rw := g.rwBackends(); intruder != "" && len(rw) > 0 {
+			for _, a := range rw {
+				im.w.Script[a+":ReadAt"] = "err"
+			}
+			im.w.OnRead = func(string) {
+				launched = true
+				go func() { im.c.SetReplicaMode(intruder, types.RW); close(done) }()
+				select {
+				case <-done:
+					intruded = true
+				case <-time.After(100 * time.Millisecond):
+				}
+			}
+		} else {
+			intruder = ""
+		}
+	}
 	k, err := im.c.ReadAt(buf, int64(off))
+	im.w.OnRead = nil
 	res := classify(err, "EOF:")
 	if err == nil && k != n {
-		res = "failed"
+		// no error although nothing (or not everything) was read: a caller that trusts the error
+		// alone takes the unfilled buffer for data — neither a success nor a reported failure
+		res = fmt.Sprintf("short-read-without-error(%d of %d)", k, n)
 	}
 	var tried []string
 	for _, a := range im.w.Answers {
@@ -693,7 +726,24 @@ func (g *gen) doRead() {
 			tried = append(tried, kv[:i]+"="+kv[i+1:])
 		}
 	}
-	g.emit(fmt.Sprintf("r %d %d | %s", off, n, orDash(tried)), res)
+	readLine := fmt.Sprintf("r %d %d | %s", off, n, orDash(tried))
+	if intruder != "" && launched {
+		select {
+		case <-done:
+		case <-time.After(5 * time.Second):
+		}
+		first, second, r1, r2 := readLine, fmt.Sprintf("setmode %s RW", intruder), res, "ok"
+		if intruded {
+			first, second, r1, r2 = second, first, r2, r1
+		}
+		g.lines = append(g.lines, first)
+		g.outs = append(g.outs, "*|"+r1+" ; ")
+		g.lines = append(g.lines, second)
+		g.outs = append(g.outs, "~|"+g.im.state(r2))
+		g.feat["read-overlapped-by-promotion"] = true
+	} else {
+		g.emit(readLine, res)
+	}
 	g.feat["read"] = true
 }
 
